@@ -50,18 +50,25 @@ def parseObsRows (t : String) : Option (Option (List (List String))) :=
       else some (some ((r.splitOn ";").map fun row => if row = "()" then [] else row.splitOn ","))
   | _ => none
 
-def parseObs (ts : List String) : Option Obs :=
+/-- Observation plus the message of the last panic on any thread of the harness process (empty if none). -/
+def parseObs (ts : List String) : Option (Obs × String) :=
   match ts with
-  | ["panic"] => some .panic
-  | ["hang"] => some .hang
   | "ok" :: names :: ncols :: rest => do
       let colnames ← parseNames names
       let n ← ncols.toNat?
       if rest.length ≠ n + 1 then none else
       let cols ← (rest.take n).mapM parseObsCol
       let rows ← parseObsRows (rest.getD n "")
-      pure (.ok { colnames := colnames, rows := rows, columns := cols })
-  | [t] => if t.startsWith "err:" then some (.err (t.drop 4).toString) else none
+      pure (.ok { colnames := colnames, rows := rows, columns := cols }, "")
+  | t :: rest =>
+      let sig := match rest with
+        | [h] => (hexToString h).getD ""
+        | _ => ""
+      if rest.length > 1 then none
+      else if t = "panic" then some (.panic, sig)
+      else if t = "hang" then some (.hang, sig)
+      else if t.startsWith "err:" then some (.err (t.drop 4).toString, sig)
+      else none
   | _ => none
 
 def showNames (ns : List String) : String := showList stringToHex ns
@@ -156,12 +163,12 @@ def mentionsOnlyColumns (obs : List (Expr × Bool)) : Bool :=
   obs.all fun ob => isColName ob.1
 
 /-- Number of rows, when the front-end model alone determines it: no partitions; or no WHERE, no
-    aggregate, ORDER BY (if any) on plain columns. -/
+    aggregate, ORDER BY (after constant keys are dropped) on plain columns only. -/
 def predictRows (plan : TaskPlan) (q : Query) (rows : Nat) : Option Nat :=
   let lim := plan.norm.outputPass.limit
   if plan.partitions = 0 then some 0
   else if q.filter == .const (.int 1) && plan.norm.main.aggregate.isEmpty && plan.norm.final.isNone
-      && mentionsOnlyColumns q.orderBy then
+      && mentionsOnlyColumns (q.orderBy.filter fun ob => keepsOrderKey ob.1) then
     some (min lim.limit (rows - min lim.offset rows))
   else none
 
@@ -188,6 +195,64 @@ def modelFront (p : Parsed) : String :=
   | .fault _ => "panic"
   | .ok q => "ok " ++ showQuery q ++ " # " ++ showRes showNormalized (normalize q)
 
+/-! ### Open findings of other components that surface here as a lost answer
+
+  Each classifier is a conjunction of the recorded panic signature and a structural condition on the
+  statement; the ids are entries of known_findings.jsonl. -/
+
+def containsSub (s sub : String) : Bool := (s.splitOn sub).length > 1
+
+def isBoolExpr : Expr → Bool
+  | .f2 t _ _ => t == .eq || t == .ne || t == .lt || t == .le || t == .gt || t == .ge || t == .and || t == .or
+      || t == .regex || t == .like || t == .notLike
+  | .f1 t _ => t == .not || t == .isNull || t == .isNotNull
+  | _ => false
+
+def columnsOf : Expr → List String
+  | .col c => [c]
+  | .const _ => []
+  | .f1 _ e => columnsOf e
+  | .f2 _ a b => columnsOf a ++ columnsOf b
+  | .agg _ e => columnsOf e
+
+/-- Some sole select item is the identifier `*` written with quotes (a column named `*`), which the
+    engine cannot tell from the wildcard. -/
+def quotedStar (p : Parsed) : Bool :=
+  match p with
+  | .stmts [.query q] =>
+      match q.body with
+      | .select s => match s.projection with
+          | [.unnamed (.ident "*") _] => true
+          | [.aliased (.ident "*") _] => true
+          | _ => false
+      | .other => false
+  | _ => false
+
+def classify (p : Parsed) (columns : List String) (verdict sig : String) : String :=
+  if verdict = "OK" then "" else
+  match parseQuery p with
+  | .ok q =>
+      let lost := verdict = "BAD lost-answer" || verdict = "BAD hang"
+      if lost && containsSub sig "to_mixed" && q.select.any (fun ci => isBoolExpr ci.expr && ci.expr.hasColumn) then
+        "merge-bool-projection-to-val"
+      else if lost && containsSub sig "lub not implemented for I64 and U8"
+          && (q.orderBy.filter fun ob => keepsOrderKey ob.1).any (fun ob => isBoolExpr ob.1) then
+        "C05-orderby-bool-key-mixed-nullability"
+      else if lost && containsSub sig "columns[" && (columnsOf q.filter).any (fun c => !columns.contains c) then
+        "where-null-partition-empty"
+      else if verdict = "BAD column-count" && quotedStar p then
+        "C12-quoted-star-is-wildcard"
+      else ""
+  | _ => ""
+
+/-- The mutation stream has no syntax tree: there the exact panic message alone decides. -/
+def classifyMut (verdict sig : String) : String :=
+  if !(verdict = "BAD lost-answer" || verdict = "BAD hang") then ""
+  else if containsSub sig "Vec<U8>.to_mixed" then "merge-bool-projection-to-val"
+  else if containsSub sig "lub not implemented for I64 and U8" then "C05-orderby-bool-key-mixed-nullability"
+  else if containsSub sig "columns[" then "where-null-partition-empty"
+  else ""
+
 /-! ### Lines -/
 
 def splitAt (ts : List String) : List String × List String :=
@@ -210,15 +275,20 @@ def step (line : String) : String :=
   | "run" :: ex :: metaTok :: parts :: rows :: cols :: rf :: rest =>
       let (ast, obsToks) := splitAt rest
       match pParsed ast, parseObs obsToks, parseMeta metaTok, parts.toNat?, rows.toNat?, parseNames cols with
-      | some (p, []), some obs, some m, some np, some nr, some columns =>
+      | some (p, []), some (obs, sig), some m, some np, some nr, some columns =>
           let cat : Catalog := { tableExists := ex = "1", metaCols := m, partitions := np }
           let _ := rf
-          modelRun p cat nr obs ++ "\t" ++ judge (some p) cat columns obs
+          let verdict := judge (some p) cat columns obs
+          let known := classify p columns verdict sig
+          modelRun p cat nr obs ++ "\t" ++ verdict ++ (if known = "" then "" else "\t" ++ known)
       | _, _, _, _, _, _ => "bad-op\tbad-op"
   | "mut" :: rest =>
       let (_, obsToks) := splitAt rest
       match parseObs obsToks with
-      | some obs => "?\t" ++ judge none { tableExists := true, metaCols := .missing, partitions := 0 } [] obs
+      | some (obs, sig) =>
+          let verdict := judge none { tableExists := true, metaCols := .missing, partitions := 0 } [] obs
+          let known := classifyMut verdict sig
+          "?\t" ++ verdict ++ (if known = "" then "" else "\t" ++ known)
       | none => "bad-op\tbad-op"
   | _ => "bad-op\tbad-op"
 
